@@ -4,7 +4,7 @@
    proofs/SegmentLayoutProofs.v, proofs/Crc24Proofs.v, proofs/Crc32Proofs.v. *)
 From Coq Require Import ZArith NArith List Bool.
 From GCNP Require Import base.GoInt base.Bytes gen.Crc_gen model.Crc model.Segment spec.SpecSegment
-  proofs.Crc24Proofs proofs.Crc32Proofs proofs.SegmentProofs.
+  proofs.Crc24Proofs proofs.Crc32Proofs proofs.SegmentProofs proofs.SegmentLayoutProofs.
 Import ListNotations.
 Open Scope Z_scope.
 
@@ -41,3 +41,82 @@ Theorem C06_refuse :
   forall (c : option compressor) (sc : bool) (p : list Z), Z.of_nat (length p) > 131071 -> encode_segment c sc p = Err.
 Proof. exact encode_refuses_long. Qed.
 Print Assumptions C06_refuse.
+
+(* ---- layout against spec/SpecSegment.v (native_protocol_v5.spec section 2.1, 2.2, 2.3.2) ---- *)
+
+(* the numeric parameters the Go source declares are the specification's (a changed constant breaks this) *)
+Theorem C06_parameters_agree :
+  crc24Init = spec_crc24_init /\ crc24Poly = spec_crc24_poly /\ crc32InitialBytes = spec_crc32_seed /\
+  crc32_poly = spec_crc32_poly /\ crc32InitialStart = 0 /\ MaxPayloadLength = spec_max_payload /\ mask32 = all_ones32.
+Proof. exact parameters_agree. Qed.
+Print Assumptions C06_parameters_agree.
+
+(* the checksum the code computes over the payload is the specification's seeded CRC-32 (textbook bit-at-a-time form) *)
+Theorem C06_crc32_is_spec : forall p, bytes_ok p -> Z.of_N (checksum_ieee p) = spec_crc32 p.
+Proof. exact crc32_model_is_spec. Qed.
+Print Assumptions C06_crc32_is_spec.
+
+(* FULL STATEMENT of the layout clause (kept visible; what is proved below differs from it in one place only):
+   the emitted bytes are [spec_segment ...], whose CRC-24 field is the textbook bit-at-a-time CRC-24 [spec_crc24] of
+   the header bytes. *)
+Definition C06_layout_full_statement : Prop :=
+  forall sc p, bytes_ok p -> Z.of_nat (length p) <= 131071 ->
+  encode_segment None sc p = Ok (spec_uncompressed_segment sc p).
+
+(* PROVED (partial): the same layout - little-endian 3-byte header word  len + 2^17*flag  written by div/mod, CRC-24
+   field little-endian after it, the payload, the specification's seeded CRC-32 little-endian - with the CRC-24 field
+   given by [model_crc24], the code's register machine applied to the header bytes and the specification's
+   init/polynomial (C06_parameters_agree), instead of the textbook form [spec_crc24].
+   MISSING: the lemma  model_crc24 h = spec_crc24 h  (xor-a-byte-then-8-shifts = one-bit-at-a-time division).  The two
+   forms are compared on the implementation side on every run (tools/harness/cmd/seg refCrc24 is the textbook form). *)
+Theorem C06_layout_partial :
+  forall sc p, bytes_ok p -> Z.of_nat (length p) <= 131071 ->
+  encode_segment None sc p = Ok (spec_segment_with model_crc24 false sc (zlen p) 0 p).
+Proof. exact layout_none. Qed.
+Print Assumptions C06_layout_partial.
+
+(* with a compressor: section 2.2 layout (5-byte word  clen + 2^17*ulen + 2^34*flag, compressed bytes, CRC-32 of the
+   compressed bytes) when compression pays, else the fallback of section 2.3.2 in Cassandra's reading: uncompressed-length
+   field 0, compressed-length field = payload length, the payload itself and its CRC-32 *)
+Theorem C06_layout_with_compressor_partial :
+  forall k sc p cp, bytes_ok p -> Z.of_nat (length p) <= 131071 ->
+  cmp k p = Ok cp -> bytes_ok cp -> Z.of_nat (length cp) < 2147483648 ->
+  encode_segment (Some k) sc p =
+  Ok (if Z.of_nat (length cp) <=? Z.of_nat (length p)
+      then spec_segment_with model_crc24 true sc (zlen p) (zlen cp) cp
+      else spec_segment_with model_crc24 true sc 0 (zlen p) p).
+Proof. exact layout_comp. Qed.
+Print Assumptions C06_layout_with_compressor_partial.
+
+(* the decoder accepts both readings of section 2.3.2 (uncompressed-length field 0, as emitted; compressed-length field 0,
+   as the prose says) *)
+Theorem C06_decoder_accepts_both_fallbacks :
+  forall k sc p rest, bytes_ok p -> 1 <= Z.of_nat (length p) <= 131071 ->
+  (exists s, decode_segment (Some k) (write_header (header_data_compressed sc 0 (Z.of_nat (length p))) 5 ++ p ++ write_crc32 (checksum_ieee p) ++ rest) = Ok (s, rest)
+             /\ seg_data s = p /\ is_self_contained (seg_header s) = sc) /\
+  (exists s, decode_segment (Some k) (write_header (header_data_compressed sc (Z.of_nat (length p)) 0) 5 ++ p ++ write_crc32 (checksum_ieee p) ++ rest) = Ok (s, rest)
+             /\ seg_data s = p /\ is_self_contained (seg_header s) = sc).
+Proof. exact decoder_accepts_both_fallbacks. Qed.
+Print Assumptions C06_decoder_accepts_both_fallbacks.
+
+(* the integer literals of the hand-modelled Go functions (shifts, masks, loop bounds) are the ones the model was written for *)
+Theorem C06_literals_pinned :
+  ChecksumKoopman_literals = [0; 16; 8; 0; 8; 1; 16777216; 0] /\
+  encodeHeaderUncompressed_literals = [17; 1] /\
+  encodeHeaderCompressed_literals = [34; 17; 1] /\
+  writeHeaderDataAndCrc_literals = [0; 8; 0; 8] /\
+  decodeSegmentHeader_literals = [0; 8; 0; 8; 0; 17; 0; 0; 17; 1; 1] /\
+  encodeHeaderUncompressed_flagOffset = 17 /\ encodeHeaderCompressed_flagOffset = 34 /\
+  encodeHeaderUncompressed_headerLength = UncompressedHeaderLength /\ encodeHeaderCompressed_headerLength = CompressedHeaderLength.
+Proof. exact literals_pinned. Qed.
+Print Assumptions C06_literals_pinned.
+
+(* non-vacuity: concrete instances (a 3-byte payload, both flags; an identity "compressor" meets comp_contract;
+   the standard check value of CRC-32 through the model's definition, un-seeded) *)
+Example C06_nonvacuous :
+  bytes_ok [1; 2; 255] /\
+  encode_segment None true [1; 2; 255] = Ok [3; 0; 2; 66; 150; 124; 1; 2; 255; 224; 5; 165; 17] /\
+  (exists s, decode_segment None ([3; 0; 2; 66; 150; 124; 1; 2; 255; 224; 5; 165; 17] ++ [9]) = Ok (s, [9]) /\ seg_data s = [1; 2; 255]) /\
+  comp_contract (mkCompressor (fun x => Ok x) (fun x => Ok x)) [1; 2; 255] /\
+  crc32_update 0 [49; 50; 51; 52; 53; 54; 55; 56; 57] = 3421780262%N.
+Proof. exact nonvacuous_c06. Qed.
